@@ -10,6 +10,8 @@ import (
 	"idenaverif/internal/engine"
 )
 
+var fillers = map[string]bool{"Add": true, "Store": true, "Set": true, "Put": true, "Push": true, "Insert": true, "LoadOrStore": true}
+
 // resetField describes one field of a type with a reset method.
 type resetField struct {
 	Field    string
@@ -40,6 +42,17 @@ func resetCoverage(p *engine.Prog, pkg, typ string, reset *ssa.Function) []reset
 				}
 			}
 		case *ssa.Call:
+			// a filling method on the container held by the field (set.Add, sync.Map.Store, …)
+			if obj := engine.CalleeObj(&x.Call); obj != nil && fillers[obj.Name()] {
+				if args := engine.CallArgs(x); len(args) > 0 && engine.HasRecv(x) {
+					if u, ok := engine.Unwrap(args[0]).(*ssa.UnOp); ok {
+						ts := u.Type().String()
+						if o, f, ok := engine.FieldOf(u.X); ok && o == typ && (strings.Contains(ts, "golang-set.Set") || strings.Contains(ts, "sync.Map")) {
+							return f, true
+						}
+					}
+				}
+			}
 			if b, ok := x.Call.Value.(*ssa.Builtin); ok && b.Name() == "delete" && len(x.Call.Args) > 0 {
 				if u, ok := engine.Unwrap(x.Call.Args[0]).(*ssa.UnOp); ok {
 					if o, f, ok := engine.FieldOf(u.X); ok && o == typ {
